@@ -1,7 +1,7 @@
 (* Loop/Corr.v — correspondence cases for Loop/Model.v (used by the C06 check). *)
 From Coq Require Import List Bool NArith ZArith.
 From SF Require Import Base.Str Base.Dec Base.Corr Tags.Model Gather.Corr.
-From SF Require Export Gather.Model Loop.Model.
+From SF Require Export Gather.Model Loop.Model Loop.Net.
 Import ListNotations.
 
 Inductive ccase :=
@@ -9,12 +9,33 @@ Inductive ccase :=
    status (None = the step is still waiting for input after the last token) *)
 | CLoop (pol : policy) (arr : list larr) (out : list tok) (fin : option status)
 (* LoopCombinator (one item) fed tokens carrying these tags, in this order: tags of the emitted tokens *)
-| CRetag (tags : list string) (out : list string).
+| CRetag (tags : list string) (out : list string)
+(* LoopCombinatorStep (one port, LoopCombinator with one item) fed these tokens: what it put on its output port
+   (re-tagged tokens, its termination token) and whether run() returned *)
+| CCombStep (arr : list atok) (out : list atok) (fin : bool)
+(* CWLLoopConditionalStep fed tokens for which the condition evaluated to these booleans, then a termination token:
+   tokens on the output port and on the skip port *)
+| CWhen (arr : list (tag * bool)) (outD outE : list atok).
 
+Definition tag_eqb (a b : tag) : bool := list_eqb N.eqb a b.
+Definition atok_eqb (a b : atok) : bool :=
+  match a, b with
+  | AT x, AT y | AI x, AI y => tag_eqb x y
+  | ATermIn, ATermIn | ATerm, ATerm => true
+  | _, _ => false
+  end.
 Definition check_case (c : ccase) : bool :=
   match c with
   | CLoop pol arr out fin =>
       let s := loop_run pol arr in
       list_eqb tok_eqb (lout s) out && opt_eqb status_eqb (lfinal s) fin
   | CRetag tags out => list_eqb String.eqb (loop_retags [] tags) out
+  | CCombStep arr out fin =>
+      let s := c_run (ninit unit tt []) arr in
+      list_eqb atok_eqb (qB s) out && Bool.eqb (cterm s) fin
+  | CWhen arr outD outE =>
+      let toks := map (fun p => AT (fst p)) arr ++ [ATerm] in
+      let cont := fun t => existsb (fun p => tag_eqb (fst p) t && snd p) arr in
+      list_eqb atok_eqb (flat_map (fun a => fst (w_out cont a)) toks) outD &&
+      list_eqb atok_eqb (flat_map (fun a => snd (w_out cont a)) toks) outE
   end.
